@@ -56,6 +56,15 @@ func runScheduled(prop string, c c07Case, mut func(x *runCtx, m *monitor)) ev.Ou
 		out.Label += fmt.Sprintf(" early=%v pre=%v dup=%v", early > 0, pre > 0, dups > 0)
 	}
 	prob := x.judge()
+	// shares that only exist at the end (keygen, new resharing members) are long-term secrets too
+	for i, nd := range x.net.Nodes {
+		if len(nd.ECKeys) > 0 && nd.ECKeys[0].Xi != nil {
+			mon.Secrets[i] = append(mon.Secrets[i], secretBytes(nd.ECKeys[0].Xi)...)
+		}
+		if len(nd.EDKeys) > 0 && nd.EDKeys[0].Xi != nil {
+			mon.Secrets[i] = append(mon.Secrets[i], secretBytes(nd.EDKeys[0].Xi)...)
+		}
+	}
 	mon.Finish(prob == nil)
 	if prob != nil {
 		out.Err = fmt.Errorf("%s: %s", c.Run, prob.msg)
